@@ -50,6 +50,10 @@ def run(ctx):
         texts.append("(|" + "(uid=%d)" * n % tuple(range(n)) + ")")
         texts.append("(&(objectClass=*)(|" + "(uid=é%d)" * n % tuple(range(n)) + "))")
         texts.append("(cn" + ";x-%d" * 50 % tuple(range(50)) + "=v)")
+    # nesting between what can be printed and what can be parsed (F-C15n): accepted, but str() / == of the result exhaust the stack
+    for n in (150, 300, 450):
+        for op in "&|!":
+            texts.append(("(" + op) * n + "(a=b)" + ")" * n)
     n_model_free = len(texts)
     violations = []
     hist = collections.Counter()
